@@ -194,6 +194,10 @@ namespace AIToolbox::MDP {
     template <typename M, template <typename> class StateHash>
     requires AIToolbox::IsGenerativeModel<M> && HasIntegralActionSpace<M>
     size_t MCTS<M, StateHash>::sampleAction(const size_t a, const State & s1, const unsigned horizon) {
+        // No tree to reuse (no previous call, or no such action node): start from scratch.
+        if ( a >= graph_.children.size() )
+            return sampleAction(s1, horizon);
+
         auto & states = graph_.children[a].children;
 
         size_t s1Key;
